@@ -6,7 +6,7 @@ from . import davxml as X, gen, icl, world as W
 DEFAULT_WEIGHTS = {
     "put_new": 10, "put_same": 3, "put_reser": 2, "put_change": 6, "put_revert": 3, "put_invalid": 3,
     "put_cond": 3, "put_uidconflict": 2, "put_uidchange": 2, "post": 2, "delete": 5, "delete_missing": 1, "delete_cond_stale": 1,
-    "mkcol_new": 1, "mkcol_existing": 1, "delete_col": 0.4, "proppatch": 2, "read": 4, "restart": 0.5,
+    "mkcol_new": 1.2, "mkcol_existing": 1, "delete_col": 0.8, "proppatch": 2, "read": 4, "restart": 0.5,
     "put_missing_col": 0.5, "put_nouid": 0.5, "put_moved": 0, "put_swap": 0, "put_reserved": 0.7,
 }
 
